@@ -119,7 +119,7 @@ theorem done_has_outcome (cfg : Cfg) (ls : List Label) (s : State)
 /-- non-vacuity: thread 0 owns `(r1, type 0)`, thread 1 arrives and waits, the owner's function
 fails with error 3, both return that error through pending 0. -/
 example :
-    let cfg : Cfg := ⟨fun _ => .direct, fun _ => false, true⟩
+    let cfg : Cfg := ⟨fun _ => .direct, true⟩
     let ls : List Label :=
       [(0, .callExcl (.ref 1) 0 []), (1, .callExcl (.ref 1) 0 []), (0, .go), (0, .go),
        (0, .fnRet (.err (.fn 3))), (0, .go), (0, .go), (0, .go), (1, .go)]
